@@ -48,6 +48,8 @@ CONSTANTS
   QBucket = 9
   Zones <- MZones
   Types <- MTypes
+  PStep = 5
+  PRange = 2
   WinLens <- MWinLens
   MaxTick = 287
   CompleteEvery = %(every)d
@@ -81,7 +83,7 @@ def ref_descs():
     """hand-written reference descriptors: the canonical bounds must be clean, known-bad ones must be flagged"""
     none_lo, none_hi = {'op': 'none', 'w': 'none'}, {'op': 'none', 'w': 'none', 'dir': 'floor'}
     base = dict(kind='data', wrule='', agg15=False, shift=0, sig=1, metric=False, upIncl=False, tlo=none_lo, thi=none_hi, dlo='none', dhi='none',
-                tyf='set', tys={0, 1})
+                tyf='set', tys={0, 1}, ph=dict(NO_PH))
     r = []
     r.append(dict(base, ref='clean', tlo={'op': 'ge', 'w': 'none'}, thi={'op': 'lt', 'w': 'none', 'dir': 'floor'}))
     r.append(dict(base, ref='clean', kind='index', wrule='utc', dlo='utcFromM30', dhi='utcTo'))
@@ -101,10 +103,28 @@ def ref_descs():
     r.append(dict(base, ref='bad:miss', kind='index', wrule='utc', dlo='utcFromM30', dhi='localTo'))         # local date as upper bound
     r.append(dict(base, ref='bad:miss', kind='index', wrule='utc', dlo='utcFromM30', dhi='utcToM30'))        # FormatFromDate(to) as upper bound
     r.append(dict(base, ref='bad:miss', kind='index', wrule='utc', dlo='utcFrom', dhi='utcTo', tyf='set', tys={2, 0}))  # filter of the other signal
+    # the step filter of sparse range queries: the canonical form, and one reference per way of narrowing too far
+    sparse = dict(base, metric=True, upIncl=True, tlo={'op': 'ge', 'w': 'none'}, thi={'op': 'le', 'w': 'none', 'dir': 'floor'})
+    canon = {'on': True, 'eq0': True, 'op': 'ge', 'c': 0, 'anchor': 'eval'}
+    r.append(dict(sparse, ref='clean', ph=dict(canon)))
+    r.append(dict(sparse, ref='clean', ph=dict(canon, c=-1)))                    # looser than needed: reads more, inside the window
+    r.append(dict(sparse, ref='bad:miss', ph=dict(canon, op='gt')))              # the left edge of every range window
+    r.append(dict(sparse, ref='bad:miss', ph=dict(canon, c=1)))
+    r.append(dict(sparse, ref='bad:miss', ph=dict(canon, eq0=False)))            # the evaluation instant itself
+    r.append(dict(sparse, ref='bad:miss', ph=dict(canon, anchor='start')))       # position counted from the start of the range window
+    r.append(dict(sparse, ref='bad:miss', ph=dict(canon, anchor='other')))
+    r.append(dict(sparse, ref='bad:miss', ph=dict(canon, op='none')))
     for d in r:
         for b in ('tlo', 'thi'):
             d[b] = dict({'sub': False}, **d[b])
     return r
+
+
+NO_PH = {'on': False, 'eq0': False, 'op': 'none', 'c': 0, 'anchor': 'eval'}
+
+
+def phsig(ph):
+    return 'none' if not ph['on'] else '%s%s%s@%s' % ('eq0+' if ph['eq0'] else '', ph['op'], {0: '', 1: '+', -1: '-'}[ph['c']], ph['anchor'])
 
 
 def bsig(b):
@@ -112,10 +132,10 @@ def bsig(b):
 
 
 def desc_sig(d):
-    return '%s/%s%s sig=%d%s%s%s tlo=%s:%s thi=%s:%s:%s dlo=%s dhi=%s ty=%s' % (
+    return '%s/%s%s sig=%d%s%s%s tlo=%s:%s thi=%s:%s:%s dlo=%s dhi=%s ty=%s%s' % (
         d['kind'], d['wrule'] or '-', '/agg15' if d['agg15'] else '', d['sig'], ' metric' if d['metric'] else '', ' endIncl' if d['upIncl'] else '',
         ' subsec-shift' if d['shift'] else '', d['tlo']['op'], bsig(d['tlo']), d['thi']['op'], bsig(d['thi']), d['thi']['dir'], d['dlo'], d['dhi'],
-        'none' if d['tyf'] == 'none' else ','.join(str(x) for x in sorted(d['tys'])))
+        'none' if d['tyf'] == 'none' else ','.join(str(x) for x in sorted(d['tys'])), ' step-filter=' + phsig(d['ph']) if d['ph']['on'] else '')
 
 
 def cause_sig(d, f):
@@ -125,6 +145,8 @@ def cause_sig(d, f):
     side = f.get('side')
     if side == 'ty' or f['why'] in ('other-signal', 'type-filter'):
         return '%s|type=%s' % (tbl, 'none' if d['tyf'] == 'none' else ','.join(str(x) for x in sorted(d['tys'])))
+    if side == 'ph' or f['why'] == 'step-filter':
+        return '%s|step-filter=%s' % (tbl, phsig(d['ph']))
     if (f['kind'] == 'leak' and by_ts) or f['why'] == 'ts-bound':
         if side == 'lo':
             return '%s|tlo=%s:%s%s' % (tbl, d['tlo']['op'], bsig(d['tlo']), '' if d['metric'] else ' (not a metric query)' if bsig(d['tlo']) != 'none' else '')
@@ -182,6 +204,16 @@ def to_desc(s, problems):
             problems.append('%s: date bound %s is no recognised function of the request (%s)' % (where, s[key]['texts'][:2], s[key]['labels']))
             return None
         d[fld] = p
+    d['ph'] = dict(NO_PH)
+    if s.get('phase_cls'):
+        f = s['phase_cls'].split('|')
+        if len(f) != 4 or f[1] not in ('ge', 'gt', 'none') or f[3] not in ('eval', 'start', 'other'):
+            problems.append('%s: step filter classification %r not understood' % (where, s['phase_cls']))
+            return None
+        d['ph'] = {'on': True, 'eq0': f[0] == 'true', 'op': f[1], 'c': int(f[2]), 'anchor': f[3]}
+    elif s.get('phase'):
+        problems.append('%s: step filter %s without classification' % (where, s['phase'][:1]))
+        return None
     if s['has_type']:
         d['tyf'] = 'set'
         d['tys'] = set(int(x) for x in (s['type'] or []))
@@ -215,6 +247,8 @@ def merge_scans(extracts, problems):
                     if m[b]['op'] != s[b]['op']:
                         m.setdefault('extra', []).append('%s operator differs between zones' % b)
                     m[b]['labels'] = [x for x in m[b]['labels'] if x in s[b]['labels']]
+            if m.get('phase_cls', '') != s.get('phase_cls', ''):
+                m.setdefault('extra', []).append('step filter differs between zones')
             if m['has_type'] != s['has_type'] or (m['type'] or []) != (s['type'] or []):
                 m.setdefault('extra', []).append('type filter differs between zones')
             m['unknown'] = (m.get('unknown') or []) + (s.get('unknown') or [])
@@ -277,7 +311,11 @@ def run_in(tier, sd):
         'window end convention per API: LogQL [start, end), Prometheus / Tempo / Pyroscope [start, end] (end inclusive); PromQL windows include the range / 5 min lookback before start '
         'and are shifted back by the offset of the selector: the window of a Prometheus select is [hints.Start, hints.End] as the engine asks for it',
         'timestamp-bound misses are judged on rows STRICTLY inside the window (whether the end instants belong to it is the API convention) and only against explicit '
-        'timestamp / type predicates (the step-phase filter of sparse range queries narrows by design)',
+        'timestamp / type predicates',
+        'sparse range queries (a range-vector function evaluated with step > range): the statement may skip the gaps between the range windows [t - offset - range, t - offset] of the '
+        'evaluation instants t (both edges belong to the window: the vendored engine reads t - range <= ts <= t), nothing inside them (Window.tla PhaseMiss). The evaluation instants of '
+        'query_range are floor15(start) + k * step <= ceil15(end) (the controller\'s alignment, the widening a metric query is allowed); only range windows whose end also lies inside '
+        'the requested window and rows strictly inside the requested window are judged; a step filter that is looser than needed is no leak',
         'sub-second precision per API as the reader parses it: LogQL ns; Prometheus instant `time` as a number with decimals and as RFC 3339 with a fraction; Prometheus '
         'query_range start / end, series, labels and Tempo whole seconds (query_range evaluates on a whole-second grid; series / labels / Tempo parse integers only); there the '
         'sub-second part of a select window comes from PromQL offsets / ranges with a millisecond part; Pyroscope ms',
